@@ -197,7 +197,22 @@ def run(ctx):
             res.ok("E-IDCACHE", "HyMMSBM", "no identity-keyed cache", "identity-keyed", "")
     # ---- closure: nobody else stores to self.u / self.w or mutates aliases in place
     with res.guard("closure: nobody else stores to self.u / self.w or mutates aliases in place"):
-        clo = [g for g in R.closure(ctx, fi) if g.qualname != fi.qualname and g.name not in ("_init_w", "_init_u", "__init__", "_check_and_infer_param_consistency")]
+        exempt = {"_init_w", "_init_u", "__init__", "_check_and_infer_param_consistency"}
+        # helpers that only the initialisers call (`_init_w` split into `_init_w_uniform` / `_init_w_from_prior`) initialise too
+        callers = {}
+        for m_ in ctx.methods("HyMMSBM").values():
+            for c_ in walk_no_nested(m_.node):
+                if isinstance(c_, ast.Call):
+                    for g_ in ctx.callees(m_, c_):
+                        callers.setdefault(g_.name, set()).add(m_.name)
+        grew = True
+        while grew:
+            grew = False
+            for nm_, cs_ in callers.items():
+                if nm_ not in exempt and cs_ and cs_ <= exempt:
+                    exempt.add(nm_)
+                    grew = True
+        clo = [g for g in R.closure(ctx, fi) if g.qualname != fi.qualname and g.name not in exempt]
         names = []
         for g in clo:
             gv = ctx.view(g)
@@ -220,7 +235,7 @@ def run(ctx):
                         if any(is_self_attr(base, p) for p in PARAMS):
                             # a helper that is handed the caller's 'was supplied' flags and stores under a test of
                             # one of its parameters is not decided here (the caller's flag discipline is E-FIXED)
-                            gparams = {a.arg for a in g.params} - {"self"}
+                            gparams = ({a.arg for a in g.params} | {a.arg for a in g.node.args.kwonlyargs}) - {"self"}
                             nid = gv.cfg_id(n)
                             conditional = False
                             for i_ in [x for x in walk_no_nested(g.node) if isinstance(x, ast.If)]:
